@@ -10,11 +10,11 @@ package pubsub
 
 import (
 	"context"
-	"sync/atomic"
 	"encoding/binary"
 	"fmt"
 	"sort"
 	"sync"
+	"sync/atomic"
 	"time"
 
 	pb "github.com/libp2p/go-libp2p-pubsub/pb"
@@ -32,6 +32,12 @@ func genC20(seed uint64, tier string) *Plan {
 	if r.chance(0.5) {
 		p := &Plan{World: "val", Knobs: map[string]float64{}}
 		p.Knobs["store_err"] = []float64{0, 0, 0, 0.1, 0.3}[r.intn(5)]
+		if r.chance(0.3) {
+			// the validator runs under a deadline (as with WithValidatorTimeout) and the store is
+			// sometimes slower than that
+			p.Knobs["ctx_timeout_ms"] = float64(r.rng(1, 500))
+			p.Knobs["store_slow"] = []float64{0.1, 0.3, 0.6}[r.intn(3)]
+		}
 		na := r.rng(1, 3)
 		p.Knobs["nauthors"] = float64(na)
 		n := r.rng(3, 16)
@@ -62,6 +68,7 @@ func genC20(seed uint64, tier string) *Plan {
 	p.Knobs["seen_ttl_ms"] = float64([]int{2000, 2000, 120000}[r.intn(3)])
 	p.Knobs["c20_park"] = []float64{0, 0.5, 1}[r.intn(3)]
 	p.Knobs["store_err"] = []float64{0, 0, 0, 0.1, 0.3}[r.intn(5)]
+	p.Knobs["c20_score"] = float64(r.intn(2))
 	if r.chance(0.5) {
 		// an accepting topic validator next to the sequence-number validator (inline or asynchronous)
 		p.Knobs["topic_val"] = 1
@@ -131,6 +138,8 @@ type seqStore struct {
 	getErrs int
 	nfail   map[string]int
 	errTask map[any]bool // validations (context value c20TaskKey) that met a store error
+	pSlow   float64      // Put outlives the caller's deadline with this probability (contexts with a deadline only)
+	waiting int
 }
 
 var errSimStore = fmt.Errorf("sim: metadata store unavailable")
@@ -160,8 +169,9 @@ func (st *seqStore) report() {
 type c20TaskKey struct{}
 
 func newSeqStore(s *sim) *seqStore {
-	return &seqStore{m: map[peer.ID][]byte{}, s: s, pErr: s.plan.k("store_err", 0), nfail: map[string]int{}, failed: map[string]int{}, errTask: map[any]bool{}}
+	return &seqStore{m: map[peer.ID][]byte{}, s: s, pErr: s.plan.k("store_err", 0), pSlow: s.plan.k("store_slow", 0), nfail: map[string]int{}, failed: map[string]int{}, errTask: map[any]bool{}}
 }
+
 type seqPut struct {
 	author peer.ID
 	val    uint64
@@ -185,6 +195,20 @@ func (st *seqStore) Put(ctx context.Context, p peer.ID, v []byte) error {
 	var x uint64
 	if len(v) == 8 {
 		x = binary.BigEndian.Uint64(v)
+	}
+	if _, ok := ctx.Deadline(); ok && st.pSlow > 0 && st.s.hf(fmt.Sprintf("storeslow|put|%d", st.ncalls)) < st.pSlow {
+		// a slow store that honours the caller's context: the write is abandoned when the context
+		// (validator timeout) expires first, and nothing is stored
+		st.ncalls++
+		st.nfail["put_abandoned_at_deadline"]++
+		st.failed[fmt.Sprintf("%s|%d", p, x)]++
+		st.errTask[ctx.Value(c20TaskKey{})] = true
+		st.waiting++
+		st.mu.Unlock()
+		<-ctx.Done()
+		st.mu.Lock()
+		st.waiting--
+		return ctx.Err()
 	}
 	if st.fail("put") {
 		st.failed[fmt.Sprintf("%s|%d", p, x)]++
@@ -244,6 +268,11 @@ func runC20Val(s *sim) {
 	verifYieldFn = func(point int) {}
 	run := func(t *task) {
 		ctx := context.WithValue(context.Background(), c20TaskKey{}, any(t))
+		if d := p.ki("ctx_timeout_ms", 0); d > 0 {
+			var cancel func()
+			ctx, cancel = context.WithTimeout(ctx, time.Duration(d)*time.Millisecond)
+			defer cancel()
+		}
 		sq := make([]byte, 8)
 		binary.BigEndian.PutUint64(sq, t.seq)
 		msg := &Message{Message: &pb.Message{From: []byte(t.author), Seqno: sq}}
@@ -270,6 +299,22 @@ func runC20Val(s *sim) {
 		s.park(fmt.Sprintf("seq|%d", t.idx), t, nil, nil)
 	}
 	parked2 := 0
+	// a write that waits for its caller's deadline holds the validator's lock: let the deadline
+	// pass before anything else contends for it (a goroutine blocked on a mutex is not durably
+	// blocked, virtual time would stand still)
+	slowWait := func() {
+		for k := 0; k < 4; k++ {
+			st.mu.Lock()
+			n := st.waiting
+			st.mu.Unlock()
+			if n == 0 {
+				return
+			}
+			s.probe("put_abandoned_at_validator_deadline")
+			s.advance(time.Duration(p.ki("ctx_timeout_ms", 0)+1) * time.Millisecond)
+			s.settle()
+		}
+	}
 	for i, it := range p.Items {
 		if len(s.viol) > 0 {
 			break
@@ -304,6 +349,7 @@ func runC20Val(s *sim) {
 			s.release(x, 0)
 			s.settle()
 		}
+		slowWait()
 		st.mu.Lock()
 		st.checkLog(s)
 		st.mu.Unlock()
@@ -312,6 +358,7 @@ func runC20Val(s *sim) {
 		for _, g := range s.parkedGates() {
 			s.release(g, 0)
 			s.settle()
+			slowWait()
 		}
 	}
 	s.settle()
@@ -392,8 +439,28 @@ func runC20Node(s *sim) {
 	w := newNodeWorld(s)
 	p := w.plan
 	st := newSeqStore(s)
+	scored := p.kb("c20_score") && p.ks("router", "gossipsub") == "gossipsub"
 	opt := func() Option {
-		return WithDefaultValidator(NewBasicSeqnoValidator(st, discardLogger), WithValidatorInline(p.kb("seqno_inline")))
+		seq := WithDefaultValidator(NewBasicSeqnoValidator(st, discardLogger), WithValidatorInline(p.kb("seqno_inline")))
+		if !scored {
+			return seq
+		}
+		// peer scoring with a counter of invalid deliveries that practically never decays: an
+		// ignored replay must leave it at zero for everybody who forwarded a copy
+		sp := &PeerScoreParams{
+			AppSpecificScore:  func(pid peer.ID) float64 { return 0 },
+			AppSpecificWeight: 1, DecayInterval: time.Second, DecayToZero: 0.0001, RetainScore: 10 * time.Minute,
+			Topics: map[string]*TopicScoreParams{"t0": {TopicWeight: 1, TimeInMeshQuantum: time.Second,
+				InvalidMessageDeliveriesWeight: -0.000001, InvalidMessageDeliveriesDecay: 0.9999999}},
+			SeenMsgTTL: 10 * time.Minute,
+		}
+		th := &PeerScoreThresholds{GossipThreshold: -1000, PublishThreshold: -2000, GraylistThreshold: -3000, AcceptPXThreshold: 10, OpportunisticGraftThreshold: 1}
+		return func(ps *PubSub) error {
+			if err := seq(ps); err != nil {
+				return err
+			}
+			return WithPeerScore(sp, th)(ps)
+		}
 	}
 	if err := w.startNode(opt()); err != nil {
 		s.violate("SIM", "setup", "SIM/setup", "node creation failed: %v", err)
@@ -509,6 +576,18 @@ func runC20Node(s *sim) {
 					}
 				}
 			}
+		}
+		if gs := w.n.gs(); scored && gs != nil && gs.score != nil {
+			gs.score.Lock()
+			for _, fp := range w.allFakes() {
+				if st := gs.score.peerStats[fp.id]; st != nil && st.topics["t0"] != nil {
+					s.probe("invalid_delivery_counter_checked")
+					if v := st.topics["t0"].invalidMessageDeliveries; v > 0.01 {
+						s.violate("C20", "penalty", "C20/node/forwarder-penalised", "peer %s has an invalid-delivery counter of %.2f although every message it sent was valid (accepted or an ignored replay)", fp.name, v)
+					}
+				}
+			}
+			gs.score.Unlock()
 		}
 		w.n.mu.Lock()
 		for _, r := range w.n.raw {
